@@ -262,8 +262,9 @@ FixStack(stk, r) ==
 \* parent's input sequence* joins that input sequence - which only matters while the parent still has
 \* actions to run.  For an entry e with pending actions a rewrite is therefore inside the region iff
 \*   - it is a contextual match only (nothing rewritten yet), or
-\*   - a ligature whose components are all outside e's input sequence (pure shift), or whose first
-\*     component is an input glyph of e and whose components are contiguous, or
+\*   - a ligature whose components are all outside e's input sequence (pure shift), or whose whole
+\*     span (components and the glyphs skipped between them) consists of input glyphs of e, or which
+\*     starts at an input glyph of e and has contiguous components, or
 \*   - any other rewrite that touches input glyphs of e only.
 \* First position from which membership in e's input sequence is ambiguous after rewrite r (0 = none).
 \* Pending actions of e that address input glyphs before that position are unaffected (testcases 2_09).
@@ -271,6 +272,10 @@ AmbigFrom(e, r) ==
   IF r.push # <<>> THEN 0
   ELSE IF Len(r.mrg) > 1
     THEN IF Range(r.mrg) \cap Range(e.ip) = {} THEN 0
+         \* every glyph of the span (components and the glyphs skipped between them) is an input
+         \* glyph of e: plain section-3 rule, positions are interpreted after the removal
+         ELSE IF (r.mrg[1]..r.mrg[Len(r.mrg)]) \subseteq Range(e.ip) THEN 0
+         \* the ligature starts at an input glyph of e and its components are contiguous (testcases 2_08)
          ELSE IF r.mrg[1] \in Range(e.ip) /\ r.mrg[Len(r.mrg)] - r.mrg[1] + 1 = Len(r.mrg) THEN 0
          ELSE r.mrg[1]
     ELSE IF r.touch \subseteq Range(e.ip) THEN 0
